@@ -386,6 +386,10 @@ def overflow_tags(rows_list, args, tname, cls):
         try: ints.append(abs(int(a)))
         except ValueError: pass
     out = []
+    # an integer of the arguments (coefficient, denominator, inhomogeneous term) that T cannot represent exactly
+    prec = {"float": 24, "fl_r_oc": 24, "double": 53, "db_r_oc": 53, "ldouble": 64, "ld_r_oc": 64}.get(tshort)
+    if (prec is not None and any(v > 2 ** prec and v % 2 == 1 for v in ints)) or (prec is None and max(ints) > hi):
+        out.append("coefficient_or_denominator_not_representable_in_T")
     # the two largest magnitudes among the bounds of the operands and the integers of the arguments
     vals = sorted([big] + ints, reverse=True)[:2]
     if type_class(tshort) == "native_int" and (vals[0] > hi or vals[0] + vals[1] > hi or (vals[1] >= 2 and vals[0] * vals[1] > hi)):
